@@ -43,7 +43,7 @@ def _cases(draw, tier):
     salt = draw(strategies.salts)
     cls = draw(st.sampled_from(['generic', 'shared_tight', 'shared_tight', 'heavy_ties',
                                 'zero_capacity', 'lower_quotas', 'two_agent', 'two_agent',
-                                'more_lecturers']))
+                                'more_lecturers', 'lecturer_ties_only']))
     if (not large) and pct(draw) < 12:
         # a tiny instance embedded under sparse two-digit ids; real CBC on the big file, the
         # stable set is enumerated on the tiny one
@@ -69,8 +69,14 @@ def _cases(draw, tier):
                                            names=['maxsize', 'minsize', 'mincost', 'gre']))
         return {'inst': inst, 'opts': opts, 'choices': [], 'mode': 'cbc', 'salt': salt,
                 'large': True}
+    gadget = pct(draw) < 6
     inst = draw(strategies.instances(strategies.SIZES[tier], two_sided=True, cls=cls))
     first = draw(st.sampled_from([None, None, 'maxsize', 'minsize']))
+    if gadget:
+        # stable matchings of different sizes by construction: "every optimum (for example the
+        # maximum size of a stable matching) is taken over all stable valid matchings"
+        inst = draw(strategies.size_gadget_instances())
+        first = draw(st.sampled_from(['maxsize', 'minsize', 'maxsize', 'minsize', None]))
     if first:
         opts = draw(strategies.option_sets(inst, min_crit=1, max_crit=1, names=[first],
                                            twopl=True, stab=True))
